@@ -5,7 +5,8 @@
 P=$(readlink -f $1); shift; PROP=$1; shift
 WT=/var/tmp/ekosim-try-$$
 git -C /repo worktree add --detach $WT HEAD >/dev/null 2>&1 || exit 2
-( cd $WT && git apply "$P" ) || { echo "patch does not apply"; git -C /repo worktree remove --force $WT; exit 2; }
+# older patches were written against earlier commits of /repo: plain, then reduced context, then 3-way
+( cd $WT && { git apply "$P" 2>/dev/null || git apply -C1 "$P" 2>/dev/null || git apply -3 "$P" >/dev/null 2>&1; } ) || { echo "patch does not apply to /repo HEAD (see base_commit in meta.json)"; git -C /repo worktree remove --force $WT; echo "exit=2"; exit 2; }
 cd /verif
 EKOSIM_REPO=$WT /venv/bin/python check.py $PROP --no-evidence "$@" 2>&1 | tail -8
 rc=${PIPESTATUS[0]}
